@@ -320,4 +320,33 @@ example : (do let d ← TD.removeCol .debug (⟨[1, 2, 3, 4, 5, 6], 2, 3⟩ : TD
               let (t', dropped) ← d.drop .debug
               pure (x, t', dropped)) = .ok (some 5, ⟨[1, 3, 4, 6], 2, 2⟩, [2]) := by rfl
 
+/-! ### whole drain lifetimes: remove, consume from either end along any word, drop -/
+
+/-- the cells of column `i`, top to bottom -/
+def TD.colCells (t : TD α) (i : Nat) : List α := (List.range t.numRows).filterMap fun r => t.data[t.pos i r]?
+
+/-- the cells of row `i`, left to right -/
+def TD.rowCells (t : TD α) (i : Nat) : List α := (t.data.drop (i * t.numCols)).take t.numCols
+
+/-- `remove_row(i)`, any consumption `w` from either end, then drop: what is yielded is what the ideal sequence over the row's
+    cells yields along `w`; the rest is dropped by the drain; the array is the old one without row `i` — whatever `w` was -/
+theorem C07_remove_row_run (m : Mode) (t : TD α) (h : t.Inv) (i : Nat) (hi : i < t.numRows) (w : List Bool) :
+    ∃ d, t.removeRow m i = .ok d ∧
+      (d.run w).1 = (Seq.ends (t.rowCells i) w).1 ∧ (d.run w).2.drop.2 = (Seq.ends (t.rowCells i) w).2 ∧
+      (d.run w).2.drop.1.Inv ∧ (d.run w).2.drop.1.grid = t.grid.eraseIdx i ∧
+      ((d.run w).1 ++ (d.run w).2.drop.2).Perm (t.rowCells i) := by
+  sorry
+
+/-- `remove_col(i)`, any consumption `w` from either end, then drop -/
+theorem C07_remove_col_run (m : Mode) (t : TD α) (h : t.Inv) (i : Nat) (hi : i < t.numCols) (w : List Bool) :
+    ∃ d ys d' t' dropped, t.removeCol m i = .ok d ∧ d.run m w = .ok (ys, d') ∧ d'.drop m = .ok (t', dropped) ∧
+      ys = (Seq.ends (t.colCells i) w).1 ∧ dropped = (Seq.ends (t.colCells i) w).2 ∧
+      t'.Inv ∧ t'.grid = (if t.numCols = 1 then [] else t.grid.map fun ρ => ρ.eraseIdx i) ∧
+      (ys ++ dropped).Perm (t.colCells i) := by
+  sorry
+
+/-- the ideal sequence conserves items along any word -/
+theorem C07_ends_perm {ι : Type} (l : List ι) (w : List Bool) : ((Seq.ends l w).1 ++ (Seq.ends l w).2).Perm l := by
+  sorry
+
 end Toodee
